@@ -83,6 +83,16 @@ CHECKS = {
               "quantifies over run-time values and is NOT claimed. One known finding: POO.algo_counter (rhomax < ~0.83)."),
         note=TRUST + "; pull precedes receive_reward; T within budget; depth caps large enough; np.random.uniform(a,b) in [a,b]",
         ref="DESIGN.md section 4-C01"),
+    "C04": dict(
+        engine="E2 cfg + E3 summaries + credit-path walker",
+        technique="path-wise credit-event analysis of receive_reward + reaching-definition pairing with pull + symbolic method summaries (sympy)",
+        text=("Static necessary conditions: on every path of every receive_reward exactly one credit of the reward parameter itself "
+              "(cell, chain of cells, learner or running-mean score), zero only in documented finished states; the credited designator "
+              "is exactly what pull handed out (attribute substitution at each return, lock-step path/chain construction, same arm key); "
+              "each cell class's update_reward equals the reference recording step symbolically and unconditionally; evidence fields have "
+              "no other writer (two frozen StroquOOL exceptions). Equality of stored statistics with a replayed history is NOT observed."),
+        note=TRUST + "; pull/receive_reward alternate; cells merged per attribute; sympy single-expression equivalence",
+        ref="DESIGN.md section 4-C04"),
 }
 
 NOT_YET = "checker under construction in this round (see DESIGN.md section 0 for the clause it will decide)"
